@@ -79,6 +79,8 @@ def shapes(tier):
     ]
     # worker jobs also preemptible at every store READ: shutdown while a block is half advanced (ok == False)
     out.append(dict(base, split_jobs='reads', initial=INITIAL, deviations=1, script=[('block', payA)]))
+    # the real OnDiskBlock prefetcher: shutdown while block downloads are still in flight (and blocks already processed)
+    out.append(dict(base, real_odb=True, initial=INITIAL + [cbA, payA], deviations=1, explore_startup=True, script=[]))
     # cache pressure: check_cache_size_loop asks for a flush while blocks are being advanced
     for arg in (True, False):
         out.append(dict(base, initial=INITIAL + [cbA], deviations=1, explore_startup=True, script=[],
